@@ -20,7 +20,7 @@ Shapes == IF Thorough
           THEN { <<1,1,1>>, <<1,1,2>>, <<1,1,3>>, <<1,2,1>>, <<2,1,1>>, <<3,1,1>>, <<1,2,2>>, <<2,2,1>>, <<2,1,2>>, <<1,2,3>>, <<1,3,2>>, <<2,1,3>>,
                  <<2,2,2>>, <<1,1,5>>, <<1,3,3>>, <<3,3,1>>, <<2,2,3>>, <<3,3,3>>, <<2,3,4>> }
           ELSE { <<1,1,1>>, <<1,1,2>>, <<1,1,3>>, <<2,1,1>>, <<1,2,2>>, <<2,1,2>>, <<1,2,3>>, <<2,2,2>>, <<1,1,5>>, <<1,3,3>>, <<3,3,3>> }
-FullLimit == IF Thorough THEN 8 ELSE 6     \* all images in 0..MaxVal up to this many voxels
+FullLimit == IF Thorough THEN 8 ELSE 5     \* all images in 0..MaxVal up to this many voxels
 
 \* --- stencils (symmetric, non-negative, centre 0), as functions of the offset
 OffOf(wr, n) == << (n - 1) \div ((2 * wr[2] + 1) * (2 * wr[3] + 1)) - wr[1],
@@ -41,37 +41,40 @@ MkP(d, sw, kk, beta, gamma, eps) ==
 
 \* --- image families
 AllImages(d) == [Vox(d) -> 0..MaxVal]
-\* larger grids: a constant image with up to two bumps
+\* larger grids: a constant image with up to two bumps (first bump at the first, middle or last voxel)
+Anchors(d) == { 1, (NVox(d) + 1) \div 2, NVox(d) }
 SparseImages(d) == { [i \in Vox(d) |-> cst + (IF i = q[1] THEN q[2] ELSE 0) + (IF i = q[3] THEN 1 ELSE 0)] :
-                       cst \in 0..1, q \in { <<i1, h1, i2>> \in Vox(d) \X (1..2) \X Vox(d) : i1 <= i2 } }
+                       cst \in 0..1, q \in Anchors(d) \X (IF Thorough THEN 1..2 ELSE {2}) \X (IF Thorough THEN Vox(d) ELSE { i \in Vox(d) : i % 3 = 2 }) }
 Images(d) == IF NVox(d) <= FullLimit THEN AllImages(d) ELSE SparseImages(d)
 
 AB == IF Thorough THEN 8 ELSE 6
 PotStates == { [kind |-> "pot", p |-> [gamma |-> g, eps |-> e], a |-> a, b |-> b] : g \in 0..3, e \in 1..3, a \in 0..AB, b \in 0..AB }
 RdpShapes == IF Thorough THEN { <<1,1,1>>, <<1,1,2>>, <<1,1,3>>, <<1,2,2>>, <<2,1,2>>, <<1,2,3>>, <<2,2,2>> } ELSE { <<1,1,1>>, <<1,1,2>>, <<1,1,3>>, <<1,2,2>>, <<2,1,2>> }
 
+KB == { <<0, 1>>, <<1, 2>>, <<2, 1>> }     \* (kappa pattern, beta)
 Init == /\ k = 0
-        /\ \/ \E d \in Shapes, sw \in Stencils, kk \in 0..2, beta \in 1..2 :
-                \E img \in Images(d) : s = [kind |-> "quad", p |-> MkP(d, sw, kk, beta, 0, 1), x |-> img]
+        /\ \/ \E d \in Shapes, sw \in Stencils, kb \in KB :
+                \/ s = [kind |-> "quadp", p |-> MkP(d, sw, kb[1], kb[2], 0, 1)]
+                \/ \E img \in Images(d) : s = [kind |-> "quad", p |-> MkP(d, sw, kb[1], kb[2], 0, 1), x |-> img]
            \/ \E img \in AllImages(<<1,1,3>>) : s = [kind |-> "asym", p |-> MkP(<<1,1,3>>, <<<<0,0,1>>, WASYM>>, 0, 1, 0, 1), x |-> img]
            \/ s \in PotStates
            \/ \E d \in RdpShapes, sw \in { <<<<1,1,1>>, W3>>, <<<<0,1,1>>, W2D>> }, kk \in {0, 1}, g \in {0, 2}, e \in {1, 2} :
                 \E img \in AllImages(d) : s = [kind |-> "rdp", p |-> MkP(d, sw, kk, 1, g, e), x |-> img]
-Steps == CASE s.kind = "quad" -> 9 [] s.kind = "asym" -> 1 [] s.kind = "pot" -> 4 [] s.kind = "rdp" -> 4
+Steps == CASE s.kind = "quad" -> 5 [] s.kind = "quadp" -> 3 [] s.kind = "asym" -> 1 [] s.kind = "pot" -> 4 [] s.kind = "rdp" -> 4
 Next == k < Steps /\ k' = k + 1 /\ s' = s
 Spec == Init /\ [][Next]_<<s, k>>
 
 Q(n) == s.kind = "quad" /\ k = n
 Shift(x) == [i \in DOMAIN x |-> x[i] - 1]        \* directions with negative components
+QP(n) == s.kind = "quadp" /\ k = n
 InvQ1 == Q(1) => QGradIsDerivative(s.p, s.x)
 InvQ2 == Q(2) => QRowIsJacobian(s.p, s.x)
 InvQ3 == Q(3) => QHessIsDirectional(s.p, s.x, Shift(s.x))
-InvQ4 == Q(4) => QRowIsUnit(s.p)
-InvQ5 == Q(5) => QSymmetric(s.p)
-InvQ6 == Q(6) => QPSD(s.p, Shift(s.x)) /\ QPSD(s.p, s.x)
-InvQ7 == Q(7) => QLinearBeta(s.p, s.x, 3)
-InvQ8 == Q(8) => \A cst \in 0..MaxVal : QUniformZero(s.p, cst)
-InvQ9 == Q(9) => QLocal(s.p, s.x)
+InvQ4 == Q(4) => QPSD(s.p, Shift(s.x)) /\ QPSD(s.p, s.x)
+InvQ5 == Q(5) => QLinearBeta(s.p, s.x, 3)
+InvQ6 == QP(1) => QRowIsUnit(s.p)
+InvQ7 == QP(2) => QSymmetric(s.p) /\ QLocalRows(s.p)
+InvQ8 == QP(3) => \A cst \in 0..MaxVal : QUniformZero(s.p, cst)
 \* with asymmetric weights the documented gradient is NOT the derivative of the documented value and the
 \* Hessian is not symmetric unless the image is such that the difference vanishes: the clauses need SymmetricW
 InvA1 == (s.kind = "asym" /\ k = 1) => /\ ~SymmetricW(s.p.wr, s.p.w) /\ ~QSymmetric(s.p)
